@@ -574,6 +574,7 @@ func TestAllCapabilitySubsets(t *testing.T) {
 		}
 		caps := refterm.FromMask(m)
 		caps.UserCursorStyle = idx % 7
+		caps.KittyInitial = []int{0, 1, 3}[idx%3]
 		if caps.OSC176 {
 			caps.AppID = "orig"
 		}
